@@ -38,6 +38,7 @@ type Tracker struct {
 	d      int // every unit <= d is durable as part of a prefix (sync commit, Flush, Close)
 	ing    int // index of the last acknowledged ingest/excise (durable on its own)
 	hasIng bool
+	flushed int // index acked when the last Flush returned
 
 	fmvLo, fmvHi int // recovered format major version must lie in [fmvLo, fmvHi]
 }
@@ -80,6 +81,9 @@ func (t *Tracker) Ack() {
 func (t *Tracker) Durable(what string) {
 	t.mu.Lock()
 	t.d = t.acked
+	if what == "Flush" {
+		t.flushed = t.acked
+	}
 	t.mu.Unlock()
 }
 
@@ -449,4 +453,64 @@ func (h *Harness) crashRestart() {
 	r.Hook = h.T
 	r.Count("crash_restarts", 1)
 	h.enabled.Store(true)
+}
+
+
+// durableIterStep implements the C13 oracle: an OnlyReadGuaranteedDurable
+// iterator must show a prefix state of the history (at least everything up to
+// the last successful Flush), and a crash taken at that moment with 0 %
+// survival of unsynced data must recover a state that contains that prefix.
+func (h *Harness) durableIterStep(r *dbcheck.Run) {
+	if r.Failed() {
+		return
+	}
+	db := r.DB()
+	canon, err := dbcheck.ReadCanon(db.NewIter, &pebble.IterOptions{OnlyReadGuaranteedDurable: true})
+	if err != nil {
+		r.Fail("durable-iter-error", "OnlyReadGuaranteedDurable iterator: %v", err)
+		return
+	}
+	h.T.mu.Lock()
+	view := bounds{d: h.T.flushed, ing: 0, acked: h.T.acked, issued: h.T.acked, fmvLo: h.T.fmvLo, fmvHi: h.T.fmvHi}
+	h.T.mu.Unlock()
+	vm := h.T.match(canon, view)
+	r.Count("durable_only_views_checked", 1)
+	if !vm.OK {
+		r.FailMatch("durable-view-illegal", map[string]any{"kind": "no-prefix"},
+			"OnlyReadGuaranteedDurable view equals no prefix state in [last flush=%d, acked=%d] (nor a flushed prefix united with later ingests)\nview:\n%s\nstate after last flush:\n%s\nunits:%s",
+			view.d, view.acked, clip(canon), clip(h.canonOf(view.d)), h.unitList(view))
+		return
+	}
+	if vm.Mixed {
+		r.ViolateSoft("durable-view-non-prefix", map[string]any{"missing": "unflushed-batches-only", "present": "ingest-or-excise"},
+			"OnlyReadGuaranteedDurable view is not a prefix of the history: it shows the flushed prefix up to unit %d plus later ingest/excise unit(s) up to %d while %d unflushed batch(es) in between are absent",
+			vm.Prefix, vm.Q, vm.LostBatch)
+	}
+	// crash right now with no unsynced survival
+	b := h.T.before()
+	clone := h.mem.CrashClone(vfs.CrashCloneCfg{})
+	b = h.T.after(b)
+	atomic.AddInt64(&h.clones, 1)
+	save := h.allowMixed
+	h.allowMixed = true
+	rv := h.checkClone(clone, b, fmt.Sprintf("durable-iter@%d survive=0%%", r.Step()), h.Depth, int64(1<<43)+int64(r.Step()))
+	h.allowMixed = save
+	if !rv.OK || r.Failed() {
+		return
+	}
+	if rv.Prefix < vm.Prefix || rv.Q < vm.Q {
+		r.FailMatch("durable-view-not-crash-proof", nil,
+			"the OnlyReadGuaranteedDurable iterator showed the history up to unit %d (ingests up to %d) but a crash at that moment recovered only up to unit %d (ingests up to %d)",
+			vm.Prefix, vm.Q, rv.Prefix, rv.Q)
+		return
+	}
+	if vm.Prefix > 0 {
+		h.R.Distinct("durable-view", r.Case, r.Step(), vm.Prefix, vm.Q)
+	}
+	r.Count("durable_view_and_crash_pairs", 1)
+}
+
+// DurableIterExtra returns the extra step for C13.
+func DurableIterExtra(h *Harness) []dbcheck.ExtraStep {
+	return []dbcheck.ExtraStep{{Weight: 14, F: h.durableIterStep}}
 }
